@@ -40,6 +40,11 @@ CUSTOM = {
     'C09-conelp-maxiters-floor': [('src/python/coneprog.py',
         "    MAXITERS = options.get('maxiters',100)\n    if not isinstance(MAXITERS,(int,long)) or MAXITERS < 1:\n        raise ValueError(\"options['maxiters'] must be a positive integer\")\n\n    ABSTOL = options.get('abstol',1e-7)\n    if not isinstance(ABSTOL,(float,int,long)):\n        raise ValueError(\"options['abstol'] must be a scalar\")\n\n    RELTOL = options.get('reltol',1e-6)\n    if not isinstance(RELTOL,(float,int,long)):\n        raise ValueError(\"options['reltol'] must be a scalar\")\n\n    if RELTOL <= 0.0 and ABSTOL <= 0.0 :\n        raise ValueError(\"at least one of options['reltol'] and \" \\\n            \"options['abstol'] must be positive\")\n\n    FEASTOL = options.get('feastol',1e-7)\n    if not isinstance(FEASTOL,(float,int,long)) or FEASTOL <= 0.0:\n        raise ValueError(\"options['feastol'] must be a positive scalar\")\n\n    show_progress = options.get('show_progress', True)\n\n    if kktsolver is None:\n        if dims and (dims['q'] or dims['s']):\n            kktsolver = 'qr'",
         "    MAXITERS = options.get('maxiters',100)\n    if not isinstance(MAXITERS,(int,long)) or MAXITERS < 1:\n        raise ValueError(\"options['maxiters'] must be a positive integer\")\n    MAXITERS = max(MAXITERS, 10)\n\n    ABSTOL = options.get('abstol',1e-7)\n    if not isinstance(ABSTOL,(float,int,long)):\n        raise ValueError(\"options['abstol'] must be a scalar\")\n\n    RELTOL = options.get('reltol',1e-6)\n    if not isinstance(RELTOL,(float,int,long)):\n        raise ValueError(\"options['reltol'] must be a scalar\")\n\n    if RELTOL <= 0.0 and ABSTOL <= 0.0 :\n        raise ValueError(\"at least one of options['reltol'] and \" \\\n            \"options['abstol'] must be positive\")\n\n    FEASTOL = options.get('feastol',1e-7)\n    if not isinstance(FEASTOL,(float,int,long)) or FEASTOL <= 0.0:\n        raise ValueError(\"options['feastol'] must be a positive scalar\")\n\n    show_progress = options.get('show_progress', True)\n\n    if kktsolver is None:\n        if dims and (dims['q'] or dims['s']):\n            kktsolver = 'qr'")],
+    # C09: the caller's h is scaled in place around one product and restored ("saves a temporary"); exact in
+    # floating point, so invisible sequentially and before/after — only a sibling thread that shares h sees it
+    'C09-temporary-inplace-scaling-of-h': [('src/python/coneprog.py',
+        "        # rz = hrz - h*tau\n        #    = s + G*x - h*tau\n        blas.scal(0, rz)\n        blas.axpy(hrz, rz)\n        blas.axpy(h, rz, alpha = -tau)",
+        "        # rz = hrz - h*tau\n        #    = s + G*x - h*tau\n        blas.scal(0, rz)\n        blas.axpy(hrz, rz)\n        blas.scal(2.0, h)\n        blas.axpy(h, rz, alpha = -0.5*tau)\n        blas.scal(0.5, h)")],
     # C10: coneqp no longer guards the factorisation in the main loop
     'C10-coneqp-factor-unprotected': [('src/python/coneprog.py',
         "        try: f3 = kktsolver(W)\n        except ArithmeticError:\n            if iters == 0:\n                raise ValueError(\"Rank(A) < p or Rank([P; A; G]) < n\")\n            else:\n                ind = dims['l'] + sum(dims['q'])\n                for m in dims['s']:\n                    misc.symm(s, m, ind)\n                    misc.symm(z, m, ind)\n                    ind += m**2\n                ts = misc.max_step(s, dims)\n                tz = misc.max_step(z, dims)\n                if show_progress:\n                    print(\"Terminated (singular KKT matrix).\")\n                return { 'x': x,  'y': y,  's': s,  'z': z,\n                    'status': 'unknown', 'gap': gap,",
